@@ -532,7 +532,7 @@ expandfunc(struct macro *m)
 	struct macroarg *arg;
 	struct array str, tok;
 	size_t i, depth, paren;
-	struct token *t;
+	struct token *t, copy;
 
 	/* read macro arguments */
 	paren = 0;
@@ -562,9 +562,17 @@ expandfunc(struct macro *m)
 				if (p->flags & PARAMSTR)
 					stringize(&str, t);
 			}
-			if (p->flags & PARAMTOK && !expand(t)) {
-				arrayaddbuf(&tok, t, sizeof(*t));
-				++arg[i].ntoken;
+			if (p->flags & PARAMTOK) {
+				/*
+				expand a copy: the token may live in a macro's replacement
+				list (which must not keep the 'hide' mark) or in an argument
+				list that is freed while looking ahead for '('
+				*/
+				copy = *t;
+				if (!expand(&copy)) {
+					arrayaddbuf(&tok, &copy, sizeof(copy));
+					++arg[i].ntoken;
+				}
 			}
 			t = rawnext();
 		}
@@ -691,9 +699,11 @@ next(void)
 {
 	struct token *t;
 
-	do t = rawnext();
-	while (expand(t) || t->kind == TNEWLINE && !(ppflags & PPNEWLINE));
-	tok = *t;
+	do {
+		t = rawnext();
+		if (t != &tok)
+			tok = *t;
+	} while (expand(&tok) || tok.kind == TNEWLINE && !(ppflags & PPNEWLINE));
 	if (tok.kind == TIDENT)
 		keyword(&tok);
 }
